@@ -185,20 +185,20 @@ EXTRA = {
  'C01': ' Also: 2-D normalisation over noise patterns; chains of 1000 operations (binary, in-place, inverse, prod, interp) with the invariant at 10/100/1000 steps. Angles as NumPy scalars of other widths / Python int; start poses just short of a half turn for interpolation. Refuse-or-valid cases (non-unit twist with theta, rotation classes built from objects of other classes); angle letters of 1000 turns; OA pairs within 1e-9 of parallel are outside the quantifier, 1e-7 inside. N x 3 tables of angles (array, list of rows) for RPY / Eul of SO3 / SE3. E5 shards: every ordered pair of the menu steps of mc/histmenu.py from a pristine process state (forked children), differential against the step run alone. Elements taken out by NumPy-integer indices, slices and iteration, then composed. Nearly valid arrays (one entry off by 4e-6 .. 5e-9) through the checking constructors and composed; integer-typed poses as interpolation ends.',
  'C02': ' Also: there-and-back chains of 10/100/1000 steps; a non-member result met by the BFS is reported and not expanded. The drifted intermediate of every chain is inverted and divided; nested powers inverted. Exact half turns as quaternion letters; M x 1 / 1 x M pairings. Thorough tier: z letters of generator sets above 40 restricted to the landmark subset, third BFS level from 1/8 of the states. E5 shards: every ordered pair of the menu steps of mc/histmenu.py from a pristine process state (forked children), differential against the step run alone. Freed memory is poisoned with NaN before every library call (uninitialised results show). Sequence laws on operands of 31 .. 64 values.',
  'C03': ' Also: integer / single-precision group and algebra elements (all 4 + 24 integer rotations), clockwise 2-D unit twists, and every class conversion on objects with a history (mc/hist.py). Sequences of values of mixed kinds (identity, translation, rotations, half turn) in every order of 2 and 3. Screw unit twists; mixed-kind rotation-only sequences incl. half turns; check=False spellings of Exp. E5 shards: every ordered pair of the menu steps of mc/histmenu.py from a pristine process state (forked children), differential against the step run alone. Conversions on objects whose every argument-free reader has been called first. Class exponentials on mixed-kind sequences as tables / lists of vectors / lists of matrices.',
- 'C04': ' Also: power moves **-2..3 in the lock-step graph, -q up to one rounding error compares equal, log/exp of both quaternion signs, SE3.Rx(t=)/Tx/Ty/Tz values, and every root state held by objects with a history. prod() of N = 1..9 values in every representation; product states drifted by 27 / 81 compositions (members to 1e-14) through all conversions. Drifted states (nested cubes), Twist x pose mixed products at every multiplication transition, conjugate of unit dual quaternions as inverse. Every conversion applied to whole multi-valued objects (N = 2..9): refuse loudly or one reference-equal result per value. E5 shards: every ordered pair of the menu steps of mc/histmenu.py from a pristine process state (forked children), differential against the step run alone. Logarithms of every lock-step state as the operations left it. Constructor angles between the landmark neighbours (3e-6 .. 1e-4, pi - 1e-5).',
+ 'C04': ' Also: power moves **-2..3 in the lock-step graph, -q up to one rounding error compares equal, log/exp of both quaternion signs, SE3.Rx(t=)/Tx/Ty/Tz values, and every root state held by objects with a history. prod() of N = 1..9 values in every representation; product states drifted by 27 / 81 compositions (members to 1e-14) through all conversions. Drifted states (nested cubes), Twist x pose mixed products at every multiplication transition, conjugate of unit dual quaternions as inverse. Every conversion applied to whole multi-valued objects (N = 2..9): refuse loudly or one reference-equal result per value. E5 shards: every ordered pair of the menu steps of mc/histmenu.py from a pristine process state (forked children), differential against the step run alone. Logarithms of every lock-step state as the operations left it. Constructor angles between the landmark neighbours (3e-6 .. 1e-4, pi - 1e-5). Shard midrange: Vec3 round trip for angles 0.05 .. 2 rad; compositions of small non-commuting twists.',
  'C05': ' Also: integer / single-precision rotation matrices (complete over the 24 + 4 integer rotations) and extraction from objects with a history. Class angle-axis constructors over all axis lengths in both units. rpy() / eul() of N-valued objects: triple j rebuilds value j. E5 shards: every ordered pair of the menu steps of mc/histmenu.py from a pristine process state (forked children), differential against the step run alone. Planar accessors on multi-valued objects, both units.',
- 'C06': ' Also: the rotation held as -q, binary and in-place operators in every length pairing before the point, multi-valued poses with a history. Tolerance is relative to the data magnitude with no unit floor (data down to 1e-6). Routes through the library\'s own matrix -> quaternion / dual quaternion conversions; one general-position rotation per arm of that conversion. E5 shards: every ordered pair of the menu steps of mc/histmenu.py from a pristine process state (forked children), differential against the step run alone. A series of temporaries (pose objects created, used once, dropped). Ladders the landmarks skip: rotation angles 1e-6 .. 0.1 through the library conversions; quaternions unit only to 2 .. 7 decimals.',
+ 'C06': ' Also: the rotation held as -q, binary and in-place operators in every length pairing before the point, multi-valued poses with a history. Tolerance is relative to the data magnitude with no unit floor (data down to 1e-6). Routes through the library\'s own matrix -> quaternion / dual quaternion conversions; one general-position rotation per arm of that conversion. E5 shards: every ordered pair of the menu steps of mc/histmenu.py from a pristine process state (forked children), differential against the step run alone. A series of temporaries (pose objects created, used once, dropped). Ladders the landmarks skip: rotation angles 1e-6 .. 0.1 through the library conversions; quaternions unit only to 2 .. 7 decimals. List-of-pose-objects constructor form.',
  'C07': ' Also: argument arrays with a history (accepted unchecked before, changed in place after acceptance, accepted by another class). Nested list / tuple containers (invalid direction only); class isvalid predicates with the check argument omitted / keyword / positional. E5 shards: every ordered pair of the menu steps of mc/histmenu.py from a pristine process state (forked children), differential against the step run alone. The raw non-member as an operand of * / @ + - on either side of a pose. Complete Rodrigues grid near a half turn (angles 2.50..3.50 x integer axes -2..2); named constructors outside their domain. Every bottom-row and a diagonal entry of augmented skew matrices.',
  'C08': ' Also: the same object on both sides of every operator. Scalar letters 0, 1, 0.0, False, np.int64(0), np.float64(0). Operands whose value is special while the class is general (unit-norm plain quaternions / dual quaternions, identity poses, zero twist). Plain arrays whose values are group members. One-element arrays and lists.',
- 'C09': ' Also: every other per-value method, property and conversion (refuse loudly or return M per-value results), unary minus, the same object on both sides, nearly equal elements under == / !=, elements of mixed kinds, and every accessor on objects with a history. Poses of mixed kinds x point. Column / row point forms, mixed-kind poses x point, M poses x n points of other length must raise. E5 shards: every ordered pair of the menu steps of mc/histmenu.py from a pristine process state (forked children), differential against the step run alone. Values held in integer arrays, all classes. Vector-s interpolation of quaternions 0.01 .. 0.1 rad apart against scalar calls at 1e-12; vectors of joint values against scalar calls; twist predicates strict.',
+ 'C09': ' Also: every other per-value method, property and conversion (refuse loudly or return M per-value results), unary minus, the same object on both sides, nearly equal elements under == / !=, elements of mixed kinds, and every accessor on objects with a history. Poses of mixed kinds x point. Column / row point forms, mixed-kind poses x point, M poses x n points of other length must raise. E5 shards: every ordered pair of the menu steps of mc/histmenu.py from a pristine process state (forked children), differential against the step run alone. Values held in integer arrays, all classes. Vector-s interpolation of quaternions 0.01 .. 0.1 rad apart against scalar calls at 1e-12; vectors of joint values against scalar calls; twist predicates strict. Several poses interpolated from an explicit start pose (more than half a turn apart).',
  'C11': ' Also: integer-dtype poses against their float copies. The shorter-arc request spelt as NumPy boolean and 1; start poses just short of a half turn. Vector s ascending / unsorted / descending, 2-D vector s with and without start. E5 shards: every ordered pair of the menu steps of mc/histmenu.py from a pristine process state (forked children), differential against the step run alone. Short moves far from the origin (1e6 + 5, 1e3 + 2e-3). Relative angles 0.03, 0.07, 0.085.',
  'C12': ' Also: the identities on multi-valued operands (1xN, Nx1, NxN), UnitQuaternion receivers of exp/log, mixed-class dual quaternion products. Operands as single / half precision and integer arrays and lists of NumPy scalars; conjugate of unit dual quaternions. E5 shards: every ordered pair of the menu steps of mc/histmenu.py from a pristine process state (forked children), differential against the step run alone. All exponents -8..8; complete grid of unit quaternions with integer components 0..3 under +-4..6; UnitQuaternion sums across hemispheres. 8 x 8 matrix identity of dual quaternions with SymPy symbols in either part.',
  'C13': ' Also: container forms and the check option of the vector / vex helpers, multi-valued ad(), Ad / jacob / ad on objects with a history. The linear identities with fully and partly symbolic vectors. Exponential spellings incl. many-turn S.exp(theta); Ad(S*T). E5 shards: every ordered pair of the menu steps of mc/histmenu.py from a pristine process state (forked children), differential against the step run alone. unitvec / unitvec_norm / isunitvec / iszerovec over magnitudes 1e-12 .. 1e6. Class-level vee of conjugated se(3) matrices. Twists whose 6-vector has Euclidean norm 1; near-prismatic twists.',
  'C14': ' Also: whole-matrix noise (bottom row included), the N x 4 and check=False forms of the normalising constructor, container forms of angdiff. Values as single / half precision and integer arrays; clockwise planar twists. Clockwise unit twists about -e3. E5 shards: every ordered pair of the menu steps of mc/histmenu.py from a pristine process state (forked children), differential against the step run alone. unit() on UnitQuaternion objects built with norm=False. N x 4 tables mixing unit and non-unit rows. Unit twist = twist / magnitude at the scale of the result.',
- 'C15': ' Also: the unit of every angle accessor on multi-valued objects; Python int / NumPy integer / single-precision scalar angles. Positional unit arguments, multi twist x theta of other length must raise, two-argument trexp / trexp2 forms; defaults when omitted are reported as notes only. E5 shards: every ordered pair of the menu steps of mc/histmenu.py from a pristine process state (forked children), differential against the step run alone. Container forms at every accepted length; the scalar values implementations shortcut (s = 0 / 1, exponent 0 / +-1, angle 0). Both vector arguments of the wrong length with the right total.',
+ 'C15': ' Also: the unit of every angle accessor on multi-valued objects; Python int / NumPy integer / single-precision scalar angles. Positional unit arguments, multi twist x theta of other length must raise, two-argument trexp / trexp2 forms; defaults when omitted are reported as notes only. E5 shards: every ordered pair of the menu steps of mc/histmenu.py from a pristine process state (forked children), differential against the step run alone. Container forms at every accepted length; the scalar values implementations shortcut (s = 0 / 1, exponent 0 / +-1, angle 0). Both vector arguments of the wrong length with the right total. Units of one-value-per-twist theta vectors on multi-valued twists.',
  'C16': ' Also: simplify() preserves the value (all four classes, products, sequences, numeric poses). Symbolic pose / pose. Negative single-component vector letters. 4 x 4 determinants of plain symbols (fully and partly symbolic); N x 3 angle tables in degrees. E5 shards: every ordered pair of the menu steps of mc/histmenu.py from a pristine process state (forked children), differential against the step run alone. Symbolic scalar operands of pose * / + - scalar.',
  'C17': ' Also: printing / formatting calls, matrices carrying rounding residues, line-pair descriptors, interpreter-wide state (NumPy print options, error state, global RNG) as an invariant of every non-random call, and the answer of every descriptor before and after every other call. Angles held in 0-d and 1-D arrays; the N x 4 constructor argument. Plucker pair descriptors, array-held angle descriptors, base2 history-independence. Every matrix-argument base function, the block-of-points methods and the operators once more with column-major arguments. E5 shards: every ordered pair of the menu steps of mc/histmenu.py from a pristine process state (forked children), differential against the step run alone. Printing calls with fmt / degsym variants (written text observed); arrays on the left of the binary operators. Symbolic poses (simplify, inverse, product, element access). Quaternions with a vector part of round-off size.',
- 'C19': ' Also: 3 x N contains() with distinct columns, and the whole single-line family on lines with a history. Defining points as single / half precision and integer arrays. Positional closest() result order, query points as column / row / list / tuple, Plane object mixed with coefficient vectors. E5 shards: every ordered pair of the menu steps of mc/histmenu.py from a pristine process state (forked children), differential against the step run alone. Triangles of edge 1e-2 .. 30 at coordinates around 900. Skew lines 1e-3 .. 1e-6 rad from parallel; query points 1e-8 .. 1e-3 off a line far along it.',
+ 'C19': ' Also: 3 x N contains() with distinct columns, and the whole single-line family on lines with a history. Defining points as single / half precision and integer arrays. Positional closest() result order, query points as column / row / list / tuple, Plane object mixed with coefficient vectors. E5 shards: every ordered pair of the menu steps of mc/histmenu.py from a pristine process state (forked children), differential against the step run alone. Triangles of edge 1e-2 .. 30 at coordinates around 900. Skew lines 1e-3 .. 1e-6 rad from parallel; query points 1e-8 .. 1e-3 off a line far along it. Lines 3e-8 .. 1e-4 rad apart are not parallel.',
  'C20': ' Also: augmented assignments in the reject matrix, pose x spatial vector with poses that have a history. The reflected inertia products. Copies then mutate (copy ctor, copy, deepcopy, pickle): the original keeps its value. E5 shards: every ordered pair of the menu steps of mc/histmenu.py from a pristine process state (forked children), differential against the step run alone. Objects built from a caller-owned buffer that is refilled afterwards; sums of objects with 255 .. 300 values.',
  'C18': ' Axis lengths 1+4e-6, 1-1e-5, 1+1e-9. E5 shards: every ordered pair of the menu steps of mc/histmenu.py from a pristine process state (forked children), differential against the step run alone. Theta vectors of exactly 2, 3, 4, 6, 7 values; isprismatic asked again after twists of other kinds were built. Scale factors a hair off 1; a typed, nearly equally spaced table of joint values.',
 }
